@@ -17,10 +17,12 @@ documentation / Python semantics say, not a concession to the code):
 * ordering is Python's: `nan` is below / above nothing, a `date` cannot be
   compared with a `datetime`
   (Date and DateRange convert plain dates to midnight first, as documented by
-  `_to_datetime`; CalendarDateRange does not, so there a pair must be of one kind
-  and of the kind of the bounds).
-* CalendarDateRange documents "date types" and `datetime` is a `date`:
-  admitted (CalendarDate excludes datetimes explicitly).
+  `_to_datetime`).
+* CalendarDate and CalendarDateRange take plain dates only (no datetimes).
+* `allow_None` is about the whole value: a ListSelector item `None` must be one
+  of the objects.
+* the length of a Tuple is the length of its default when a non-empty default is
+  given, and the `length` argument otherwise (docstring of `Tuple.__init__`).
 * Selector membership is Python's `in` (`1.0`, `True` are "in" `[1]`).
 * Selector with `check_on_set=False` admits everything (the value is added).
 * regexes: the bit `Ctx.rx` = `re.match(regex, v) is not None`, supplied per case.
@@ -218,7 +220,8 @@ def Sat (c : Cfg) (x : Ctx) (v : PyVal) : Prop :=
         a.isDt = true ∧ b.isDt = true ∧ PyVal.le? a b = some true ∧ RangeEnds c PyVal.toDatetime a b
   | .calendarDateRange => NoneOk c v ∨
       OnTuple v fun xs => OnPair xs fun a b =>
-        a.isDt = true ∧ b.isDt = true ∧ PyVal.le? a b = some true ∧ RangeEnds c id a b
+        a.isDt = true ∧ a.isDatetime = false ∧ b.isDt = true ∧ b.isDatetime = false ∧
+          PyVal.le? a b = some true ∧ RangeEnds c id a b
   | .callable => NoneOk c v ∨ v.isCallable = true
   | .action => NoneOk c v ∨ v.isCallable = true
   | .list => NoneOk c v ∨
@@ -241,7 +244,7 @@ instance (c : Cfg) (x : Ctx) (v : PyVal) : Decidable (Sat c x v) := by
   unfold Sat
   cases c.ptype <;> simp only <;> infer_instance
 
-/-! ### well-formed declarations, and the inputs on which the code is known to deviate -/
+/-! ### well-formed declarations -/
 
 /-- both bounds (where given) are of the type the flavour declares for them -/
 def BoundsOfType (P : PyVal → Bool) (b : Bounds) : Prop :=
@@ -285,26 +288,6 @@ def WF (c : Cfg) : Prop :=
 instance (c : Cfg) : Decidable (WF c) := by
   unfold WF; cases c.ptype <;> simp only <;> infer_instance
 
-/-- Inputs on which the code at the current commit deviates from `Sat`
-(each is reported as a finding, witnessed in Props/C01.lean and replayed on the
-real code); the equivalence theorem is proved on the complement. -/
-def Clean (c : Cfg) (v : PyVal) : Prop :=
-  match c.ptype with
-  | .integer => v.isGenFn = false                   -- Integer admits generator functions
-  | .listSelector =>                                -- allow_None also lets `None` *items* through
-    c.allowNone = true → c.checkOnSet = true →
-      OnList v (fun xs => ∀ i ∈ xs, i.isNone = true → Member c.objects i) ∨ v.isList = false
-  | .calendarDateRange =>                           -- no tuple test: lists / mappings get through
-    (match v with | .list _ => False | .dict _ _ => False | _ => True)
-  | .color =>                                       -- `$` matches before a trailing newline
-    OnStr v (fun s => s.toList.getLast? ≠ some '\n') ∨ v.isStr = false
-  | _ => True
-
-instance (c : Cfg) (v : PyVal) : Decidable (Clean c v) := by
-  unfold Clean
-  cases c.ptype <;> simp only <;> try infer_instance
-  cases v <;> simp only <;> infer_instance
-
 /-! ### what a constructor call declares -/
 
 /-- the default a declaration has (documented: a Selector without an explicit
@@ -342,40 +325,33 @@ def declaredCfg (a : Args) (n : Nat) : Cfg :=
     classes := (match a.ptype with | .dict => [PyVal.cDict] | _ => a.classes),
     allowNamed := a.allowNamed.getD true }
 
-/-- the declared length: an explicit `length` (2 for the fixed-length flavours);
-without one, the length of the default -/
+/-- the `length` a declaration names: the argument (2 for the fixed-length flavours) -/
+def lengthDeclared (a : Args) : Option Nat :=
+  match a.ptype with
+  | .tuple | .numericTuple => a.length
+  | _ => some 2
+
+/-- the length in force (docstring of `Tuple.__init__`: "determined by the initial
+default value, if any, and must be supplied explicitly otherwise"): the length of a
+non-empty default that was given; otherwise the `length` argument; otherwise the
+length of the default the type comes with.  `none` = neither is available. -/
 def specLength (a : Args) : Option Nat :=
   match a.ptype with
-  | .tuple | .numericTuple => (match a.length with | some n => some n | none => len? (specDefault a))
-  | .xy | .range | .dateRange | .calendarDateRange => some 2
+  | .tuple | .numericTuple | .xy | .range | .dateRange | .calendarDateRange =>
+    (match a.default with
+     | some d =>
+       if truthy d then len? d
+       else (match lengthDeclared a with | some n => some n | none => len? d)
+     | none =>
+       (match lengthDeclared a with | some n => some n | none => len? (specDefault a)))
   | _ => some 0
 
 /-- the constraints a constructor call declares; `none` = the declaration is
 incomplete (a Tuple with neither a length nor a default) or ill-formed (`WF`: a
-Range with a zero / non-numeric step or bounds of the wrong type).  An explicit
-`length` is the declared length; without one it is the length of the default. -/
+Range with a zero / non-numeric step or bounds of the wrong type, or a fixed-length
+flavour given a default of another length). -/
 def specCfg (a : Args) : Option Cfg :=
   ((specLength a).map (declaredCfg a)).filter fun c => decide (WF c)
-
-/-- the length a Tuple-family declaration names: the explicit `length`, or 2 for
-the fixed-length flavours -/
-def declaredLength (a : Args) : Option Nat :=
-  match a.ptype with
-  | .tuple | .numericTuple => a.length
-  | .xy | .range | .dateRange | .calendarDateRange => some 2
-  | _ => none
-
-/-- Constructor calls on which the code is known to deviate from `specCfg`
-(finding): a declared length together with a non-empty default of another
-length -- `Tuple.__init__` then silently replaces the declared length. -/
-def CleanArgs (a : Args) : Prop :=
-  match declaredLength a, a.default with
-  | some n, some d => truthy d = true → len? d = some n
-  | _, _ => True
-
-instance (a : Args) : Decidable (CleanArgs a) := by
-  unfold CleanArgs
-  cases declaredLength a <;> cases a.default <;> simp only <;> infer_instance
 
 /-- the default satisfies the declaration (a Selector may always default to `None`) -/
 def CtorSat (a : Args) (x : Ctx) : Prop :=
